@@ -1,5 +1,6 @@
 // C04/C05 correspondence harness (run under simmpi on an N x p layout).
 //   tables                 every rank prints the layout tables and next_hop(d, scheme) for all d, 3 schemes
+//   a2a <k> <padlen>       all-to-all, k messages per (s,d) pair in one epoch (aggregated buffers), then barrier
 //   p2p <lo> <hi>          for every source s in [lo,hi) and every d: marker, ONE async s->d, barrier
 //                          (routing = YGM_COMM_ROUTING); wire log carries the isend sequence
 //   bcast <lo> <hi>        for every origin o in [lo,hi): marker, ONE async_bcast from o, barrier
@@ -96,6 +97,18 @@ extern "C" int sim_main(int argc, char** argv) {
         }
         world.barrier();
       }
+    if (me == 0) hc::ev("end");
+  } else if (mode == "a2a") {
+    // aggregated traffic: every rank issues k messages to every rank (itself included) in ONE epoch, then barrier.
+    // payload = (int32 uid, string of padlen bytes): uid = ((s*n)+d)*k+j sits at offset 2 of the message (after the
+    // 16-bit lambda id), so a physical buffer in the wire log can be split into its messages and each one followed
+    int k = atoi(argv[2]), padlen = atoi(argv[3]);
+    std::string pad((size_t)padlen, 'p');
+    hc::ev("a2a begin");
+    for (int j = 0; j < k; ++j)
+      for (int d = 0; d < n; ++d)
+        world.async(d, [](int uid, const std::string&) { hc::ev("x " + std::to_string(uid)); }, (me * n + d) * k + j, pad);
+    world.barrier();
     if (me == 0) hc::ev("end");
   } else if (mode == "bcast") {
     int lo = atoi(argv[2]), hi = atoi(argv[3]);
